@@ -182,7 +182,8 @@ theorem closeFacts_of (S : Schema) {ty0 : TypeId} {a0 : Attrs} {m0 : Marks} {K :
     (hlv : findCloseLevel S (.elem ty0 a0 m0 K) tgt fr0 = .ok (some lv)) :
     CloseFacts S rf tgt lv.move lv.depth lv.fit (dropInnerB tgt lv.depth) ∧
       ∃ pm, (Node.elem ty0 a0 m0 K).resolve pm = some lv.move ∧ t ≤ pm ∧
-        (dropInnerB tgt lv.depth = true → lv.move.depth = lv.depth ∧ lv.move.textOffset = 0) := by
+        (dropInnerB tgt lv.depth = true → lv.move.depth = lv.depth ∧ lv.move.textOffset = 0) ∧
+        (dropInnerB tgt lv.depth = false → lv.move = tgt) := by
   unfold findCloseLevel at hlv
   obtain ⟨hlt, it, hit, hfits, hinner, hmove⟩ := findCloseLevelLoop_spec S _ tgt fr0 _ lv hlv
   have hcD : lv.depth ≤ rf.depth := by have := hF.1; omega
@@ -209,14 +210,16 @@ theorem closeFacts_of (S : Schema) {ty0 : TypeId} {a0 : Attrs} {m0 : Marks} {K :
   · -- `close` continues from the target itself
     rw [hb]
     refine ⟨⟨hcD, hcT, by rw [hmv]; exact hcT, fun i _ => by rw [hmv], fun i _ => by rw [hmv], by rw [hmv]; rfl,
-      hin, by rw [hb] at hlev; exact hlev⟩, t, by rw [hmv]; exact htg, Nat.le_refl _, fun h => by simp at h⟩
+      hin, by rw [hb] at hlev; exact hlev⟩, t, by rw [hmv]; exact htg, Nat.le_refl _, fun h => by simp at h,
+      fun _ => hmv⟩
   · -- the node around the target at the level below is dropped
     have hc : lv.depth < tgt.depth := by
       simp only [dropInnerB, Bool.and_eq_true, decide_eq_true_eq] at hb
       exact hb.1
     obtain ⟨hdep, hnodes, hidx, hidxc, hae, hto⟩ := closeMove_drop S htg hn lv.depth hc ha hres
     rw [hb]
-    refine ⟨⟨hcD, hcT, by omega, hnodes, hidx, ?_, hin, by rw [hb] at hlev; exact hlev⟩, a, hres, ?_, fun _ => ⟨hdep, hto⟩⟩
+    refine ⟨⟨hcD, hcT, by omega, hnodes, hidx, ?_, hin, by rw [hb] at hlev; exact hlev⟩, a, hres, ?_,
+      fun _ => ⟨hdep, hto⟩, fun h => by simp at h⟩
     · rw [hidxc, if_pos rfl, indexAfter_lt tgt lv.depth hc]
     · have := (Rt.pos_in (lv.depth + 1) (by omega)).2
       omega
